@@ -28,6 +28,8 @@ type vfStream struct {
 	broken chan struct{}
 	isBroken bool
 	sendFailsAt int
+	stallAt     int // index of the Send that is slow: it blocks until `resume` is closed
+	resume      chan struct{}
 }
 
 func (s *vfStream) breakNow() {
@@ -41,6 +43,10 @@ func (s *vfStream) Send(sub, unsub []string) error {
 	if s.isBroken || s.msgs == s.sendFailsAt {
 		s.breakNow()
 		return vfErrStream
+	}
+	if s.msgs == s.stallAt {
+		s.stallAt = -1
+		<-s.resume // a slow Send: the caller keeps changing dependencies meanwhile
 	}
 	s.msgs++
 	for _, n := range sub {
@@ -70,6 +76,7 @@ func VfC16_Subscriptions() {
 	if nd.Bool("stream-down-for-long") {
 		maxGen = 0 // the discovery service is unreachable for the whole run
 	}
+	stall := nd.Bool("a-send-is-slow")
 	firstFails := nd.Bool("first-create-fails")
 	attempts := 0
 	c := &svcDiscoveryClient{
@@ -87,33 +94,62 @@ func VfC16_Subscriptions() {
 			<-ctx.done // no further generation within the bound: park until the end
 			return nil, vfErrStream
 		}
-		s := &vfStream{set: map[string]bool{}, broken: make(chan struct{}), sendFailsAt: -1}
-		if len(streams) == 0 && nd.Bool("send-fails") {
+		s := &vfStream{set: map[string]bool{}, broken: make(chan struct{}), sendFailsAt: -1, stallAt: -1, resume: make(chan struct{})}
+		if len(streams) == 0 && stall {
+			s.stallAt = nd.Concrete(nd.IntRange("stallat", 0, 1))
+		}
+		if len(streams) == 0 && !stall && nd.Bool("send-fails") {
 			s.sendFailsAt = nd.Concrete(nd.IntRange("failat", 0, 1))
 		}
 		streams = append(streams, s)
 		return s, nil
 	}
-	names := []string{"x", "y"}
+	names := []string{"x", "y", "z"}[:nd.Param("names", 2)]
+	subOnly := nd.Param("subonly", 0) == 1
 	ncalls := nd.Param("calls", 3)
 	callerDone := false
 	subbed, unsubbed := map[string]bool{}, map[string]bool{}
 	go c.Run(ctx)
+	// the caller issues its first change, time passes (the client may connect, resubscribe, stall
+	// in a slow Send ...), then the remaining changes arrive
+	call := func(i int) {
+		n := names[nd.Concrete(nd.Choice("name", len(names)))]
+		if !subOnly && nd.Bool("unsubscribe") {
+			unsubbed[n] = true
+			c.Unsubscribe(n)
+		} else {
+			subbed[n] = true
+			c.Subscribe(n)
+		}
+	}
+	firstDone := false
+	go func() { call(0); firstDone = true }()
+	nd.Quiesce()
 	go func() {
-		for i := 0; i < ncalls; i++ {
-			n := names[nd.Concrete(nd.Choice("name", len(names)))]
-			if nd.Bool("unsubscribe") {
-				unsubbed[n] = true
-				c.Unsubscribe(n)
-			} else {
-				subbed[n] = true
-				c.Subscribe(n)
-			}
+		for !firstDone {
+			return // the first call is parked (queue full): nothing more can be issued by this caller
+		}
+		for i := 1; i < ncalls; i++ {
+			call(i)
 		}
 		callerDone = true
 	}()
 	nd.PanicLabel("discovery")
 	nd.Quiesce()
+	if stall {
+		// the slow Send completes now; everything queued meanwhile must still reach the stream
+		for _, s := range streams {
+			if s.stallAt == -1 {
+				select {
+				case <-s.resume:
+				default:
+					close(s.resume)
+				}
+			}
+		}
+		nd.Quiesce()
+		nd.Cover("slow-send-resumed")
+	}
 	nd.Class("caller-blocks-on-full-queue-holding-the-lock", !callerDone && (len(c.subCh) == qcap || len(c.unsubCh) == qcap))
 	nd.Assert(callerDone, "the caller of Subscribe/Unsubscribe is never parked forever")
 	if callerDone && len(streams) > 0 {
